@@ -108,7 +108,7 @@ class Check:
             return self.record(name, "refuted", "poly-NF", time.time() - t0, fn, goal, f"exact zero division: {e}", replay=replay)
         secs = time.time() - t0
         if ok:
-            return self.record(name, "discharged", "poly-NF", secs, fn, goal)
+            return self.record(name, "discharged", "poly-NF", secs, fn, goal, replay=replay)
         wit = find_witness(d, self.rng, ranges)
         return self.record(name, "refuted", "poly-NF", secs, fn, goal,
                            detail="non-zero normal form: " + repr(res)[:400], witness=wit, replay=replay)
@@ -136,7 +136,7 @@ class Check:
             return self.record(name, "error", "z3", time.time() - t0, fn, goal, f"checker: {e}")
         secs = time.time() - t0
         if r == "unsat":
-            return self.record(name, "discharged", "z3", secs, fn, goal or repr(goal_sym)[:300])
+            return self.record(name, "discharged", "z3", secs, fn, goal or repr(goal_sym)[:300], replay=replay)
         if r == "sat":
             return self.record(name, "refuted", "z3", secs, fn, goal or repr(goal_sym)[:300], detail="counter-model",
                                witness={k: _js(v) for k, v in m.items()}, replay=replay)
@@ -201,6 +201,13 @@ class Check:
                        goal=o.get("goal"), verifier_output=o.get("detail"), witness=o.get("witness"), replay=o.get("replay"),
                        tier=self.tier, repo_src=hook.REPO_SRC[0])
             reproduced = None
+            if callable(o.get("replay")):
+                try:
+                    o["replay"] = o["replay"](o.get("witness"))
+                except Exception as e:
+                    o["replay"] = None
+                    rep["native_observation"] = f"replay generator failed: {e!r}"
+                rep["replay"] = o["replay"]
             if o.get("replay"):
                 try:
                     from .replay import run_replay
@@ -220,6 +227,35 @@ class Check:
             exit_code = 1
         if reported > 25:
             lines.append(f"  ... and {reported-25} more failed obligations (see evidence file)")
+        # replay-oracle sanity (thorough tier / PYVC_REPLAY_SANITY): replays attached to *discharged* obligations must not
+        # "reproduce" anything on the tree they were proved on -- otherwise the native oracle itself is wrong.
+        self.extra["replay_oracles_validated"] = 0
+        if (self.tier == "thorough" or os.environ.get("PYVC_REPLAY_SANITY")) and exit_code == 0:
+            from .replay import run_replay
+
+            seen = set()
+            for o in self.obls:
+                rp = o.get("replay")
+                if o["verdict"] != "discharged" or not rp:
+                    continue
+                if callable(rp):
+                    try:
+                        rp = rp(None)
+                    except Exception:
+                        continue
+                key = hash(rp.get("script"))
+                if key in seen or len(seen) >= int(os.environ.get("PYVC_REPLAY_SANITY_MAX", "24")):
+                    continue
+                seen.add(key)
+                try:
+                    ok, detail = run_replay(rp)
+                except Exception as e:
+                    ok, detail = None, repr(e)
+                if ok:
+                    errors.append(dict(name=o["name"], detail=f"replay oracle disagrees with a discharged obligation: {detail}"))
+                elif ok is None:
+                    errors.append(dict(name=o["name"], detail=f"replay oracle could not run: {detail}"))
+            self.extra["replay_oracles_validated"] = len(seen)
         if errors and exit_code == 0:
             exit_code = 3
             for o in errors[:10]:
